@@ -593,6 +593,20 @@ func (e *Env) selRef(ref Term, xt types.Type, name string) (SVal, types.Type, er
 			val, err := e.st.loadField(v.T, owner, g.Name, g.Type)
 			return val, g.Type, err
 		}
+		// ghost state attached to an interface type, seen through an implementing pointer
+		var ig *GhostField
+		for _, k := range e.fe.P.ifaceGhostKeys() {
+			if g := e.fe.P.Ghosts[k]; g.Name == n.Name {
+				if ig != nil {
+					return nil, nil, fmt.Errorf("ghost field %s is ambiguous between interface types", n.Name)
+				}
+				ig = g
+			}
+		}
+		if ig != nil {
+			val, err := e.st.loadField(v.T, ig.Owner, ig.Name, ig.Type)
+			return val, ig.Type, err
+		}
 		return nil, nil, fmt.Errorf("no field or ghost field %s on %s", n.Name, owner)
 	}
 }
@@ -795,6 +809,48 @@ func (e *Env) evalCall(n *ECall) (SVal, types.Type, error) {
 			return Scalar{i.Typ}, tInt, nil
 		}
 		return nil, nil, fmt.Errorf("dyntype of non-interface")
+	case "sitearg", "siteres", "sitehappened":
+		// like callarg/callres/happened but indexed by the static call-site ordinal
+		// (the k of "call f#k ..."), taking the site's latest execution on this path
+		s, ok := n.Args[0].(*EStr)
+		k, ok2 := n.Args[1].(*EInt)
+		if !ok || !ok2 {
+			return nil, nil, fmt.Errorf("%s(\"callee\", site[, i])", id.Name)
+		}
+		var kk, ii int
+		fmt.Sscanf(k.V, "%d", &kk)
+		rec, have := e.st.callLog[fmt.Sprintf("%s@%d", s.V, kk)]
+		if id.Name == "sitehappened" {
+			return Scalar{BoolLit(have)}, tBool, nil
+		}
+		if !have {
+			return nil, nil, fmt.Errorf("%s: call site %s@%d was not executed on this path (guard with sitehappened)", id.Name, s.V, kk)
+		}
+		if id.Name == "siteres" {
+			if rec.res == nil {
+				return nil, nil, fmt.Errorf("siteres: %s has no result", s.V)
+			}
+			return rec.res, rec.resT, nil
+		}
+		if len(n.Args) > 2 {
+			if i, ok := n.Args[2].(*EInt); ok {
+				fmt.Sscanf(i.V, "%d", &ii)
+			}
+		}
+		if ii >= len(rec.args) {
+			return nil, nil, fmt.Errorf("sitearg: %s has %d arguments", s.V, len(rec.args))
+		}
+		return rec.args[ii], rec.argT[ii], nil
+	case "happened":
+		s, ok := n.Args[0].(*EStr)
+		k, ok2 := n.Args[1].(*EInt)
+		if !ok || !ok2 {
+			return nil, nil, fmt.Errorf("happened(\"callee\", k)")
+		}
+		var kk int
+		fmt.Sscanf(k.V, "%d", &kk)
+		_, have := e.st.callLog[fmt.Sprintf("%s#%d", s.V, kk)]
+		return Scalar{BoolLit(have)}, tBool, nil
 	case "callseq":
 		s, ok := n.Args[0].(*EStr)
 		k, ok2 := n.Args[1].(*EInt)
@@ -904,6 +960,26 @@ func (e *Env) evalCall(n *ECall) (SVal, types.Type, error) {
 		}
 		_, un := e.fe.boxFuncs(SStr)
 		return Scalar{App(SStr, un, i.Ref)}, tString, nil
+	case "asiface":
+		// asiface("*pkg.T", p): the interface value holding pointer p with dynamic type *pkg.T
+		ts, ok := n.Args[0].(*EStr)
+		if !ok {
+			return nil, nil, fmt.Errorf("asiface(\"*pkg.T\", p)")
+		}
+		v, _, err := e.eval(n.Args[1])
+		if err != nil {
+			return nil, nil, err
+		}
+		it, err := e.fe.P.resolveType("any", e.pkg)
+		if len(n.Args) > 2 {
+			if is, ok := n.Args[2].(*EStr); ok {
+				it, err = e.fe.P.resolveType(is.V, e.pkg)
+			}
+		}
+		if err != nil {
+			return nil, nil, err
+		}
+		return IfaceV{e.fe.typeCodeByName(ts.V), refOf(v)}, it, nil
 	case "typecode":
 		// typecode("*pkg.T") : code of a dynamic type
 		if s, ok := n.Args[0].(*EStr); ok {
